@@ -419,6 +419,8 @@ def gen_op(rnd, w):
         pool = part if (part and (rnd.random() < 0.4 or not complete)) else complete
         return {"op": "delete", "ver": rnd.choice(pool)}
     if kind == "set":
+        if rnd.random() < 0.2:
+            return {"op": "set", "ver": None}  # `migrate set` without a version: sync with the last file of the directory
         if rnd.random() < 0.1:
             return {"op": "set", "ver": fmt(rnd.randint(1, 99))}  # not in the directory
         part = [v for v in with_rev if w.is_partial(w.revs[v])]
